@@ -136,3 +136,28 @@ def readAll : Nat → Bytes → Option (List (Nat × Bytes))
 def encodeAll (items : List (Nat × Bytes)) : Bytes := (items.map fun (t, c) => tlv t c).flatten
 
 end Rpki.Der
+
+namespace Rpki.Der
+
+/-- the shape shared by the capturing decoders (`RoaIpAddresses::take_from`,
+`ProviderAsSet::take_from`, `RevokedCertificates::take_from`): a counting pass that calls the item
+reader `take` and applies an extra acceptance check to every item … -/
+def capturePass {α : Type} (take : Bytes → Take α) (check : α → Bool) : Nat → Bytes → Nat → Option Nat
+  | 0, b, n => if b = [] then some n else none
+  | fuel + 1, b, n =>
+    match take b with
+    | .absent => if b = [] then some n else none
+    | .bad => none
+    | .ok a rest => if check a then capturePass take check fuel rest (n + 1) else none
+
+/-- … and the later iteration over the captured octets with the *same* item reader, whose
+failure is `unwrap()`ed (`none` = panic) -/
+def iteratePass {α : Type} (take : Bytes → Take α) : Nat → Bytes → Option (List α)
+  | 0, _ => some []
+  | fuel + 1, b =>
+    match take b with
+    | .absent => some []
+    | .bad => none
+    | .ok a rest => (iteratePass take fuel rest).map (a :: ·)
+
+end Rpki.Der
